@@ -1,5 +1,5 @@
-\* C18: Project.tla as the pinned tree behaves, all four (resolver layout x exec layout) combinations;
-\* the projected state graph (-workers 1) for replay into the real generator (quick tier).
+\* Project.tla as the PINNED TREE behaves (Dev = all named deviations): prints every labelled edge of
+\* the projected state graph (-workers 1) for replay into the real generator (thorough tier).
 \* 2 resolver fields (Query.f1, T.g) x 2 schema files x 3 edit records x 2 helper tokens x 5 import
 \* tokens x both resolver layouts x histories <= 4.  Measured: see notes/C19.md.
 INIT Init
@@ -7,18 +7,18 @@ NEXT Next
 CONSTANTS
   Files <- MCFiles
   FileOrder <- MCFileOrder
-  Pairs <- MCPairs2
-  TypeOf <- MCTypeOf2
+  Pairs <- MCPairs
+  TypeOf <- MCTypeOf
   RootTypes <- MCRoot
-  Edits <- MCEdits
-  HelperToks <- MCHelpersH
-  ImportToks <- MCImportsA
+  Edits <- MCEditsDev
+  HelperToks <- MCHelpers
+  ImportToks <- MCImportsDev
   CmtToks <- MCCmt
   NeverPruned <- MCNever
-  Cfgs <- MCCfgsAll
+  Cfgs <- MCCfgs
   ImpPairs <- MCImpQ
-  InitSchemas <- MCInit2P
-  MaxHist = 4
+  InitSchemas <- MCInit3
+  MaxHist = 3
   Dev <- MCAllDevs
 VIEW View
 INVARIANTS TypeOK SchemaOK LayoutOK GenerateTotal
